@@ -340,7 +340,7 @@ func (a *freshAn) run() {
 				}
 			}
 		case *ast.Ident:
-			if o := a.obj(s); o != nil && a.isPkgVar(o) && o.Pkg() == a.p.pkg {
+			if o := a.obj(s); o != nil && a.isPkgVar(o) && o.Pkg() == a.p.pkg && !readOnlyTable(a.p, o) {
 				a.globals[s.Name] = true
 			}
 		case *ast.SelectorExpr:
@@ -477,4 +477,110 @@ func emitFresh(b *strings.Builder) {
 		fmt.Fprintf(b, "  (* %s *)\n  {| f_name := %s; f_results := [%s]; f_globals := [%s] |}%s\n", f.src, coqStr(f.name), strings.Join(rs, "; "), strings.Join(gs, "; "), sep)
 	}
 	b.WriteString("].\n")
+}
+
+// readOnlyTable: an unexported package-level variable holding plain data only (basic values,
+// strings, arrays / slices / structs of such — no pointer, map, interface, func or channel) that no
+// file of the package ever writes: no occurrence is (the root of) the left side of an assignment or
+// of ++/--, has its address taken, is the destination of copy / append / clear, or is handed to a
+// sort function.  A lookup table hoisted out of a method (`var acmStatusFields =
+// []FieldDescription{...}`) is such a variable: reading it is not reading state.
+var roTableCache = map[types.Object]bool{}
+
+func plainData(t types.Type, depth int) bool {
+	if depth > 6 {
+		return false
+	}
+	switch u := t.Underlying().(type) {
+	case *types.Basic:
+		return u.Kind() != types.UnsafePointer
+	case *types.Slice:
+		return plainData(u.Elem(), depth+1)
+	case *types.Array:
+		return plainData(u.Elem(), depth+1)
+	case *types.Struct:
+		for i := 0; i < u.NumFields(); i++ {
+			if !plainData(u.Field(i).Type(), depth+1) {
+				return false
+			}
+		}
+		return true
+	}
+	return false
+}
+
+func readOnlyTable(p *pkgInfo, o types.Object) bool {
+	if v, ok := roTableCache[o]; ok {
+		return v
+	}
+	res := !o.Exported() && plainData(o.Type(), 0)
+	rootIs := func(e ast.Expr) bool {
+		for {
+			switch x := e.(type) {
+			case *ast.ParenExpr:
+				e = x.X
+			case *ast.IndexExpr:
+				e = x.X
+			case *ast.SliceExpr:
+				e = x.X
+			case *ast.SelectorExpr:
+				e = x.X
+			case *ast.StarExpr:
+				e = x.X
+			case *ast.Ident:
+				return p.info.Uses[x] == o
+			default:
+				return false
+			}
+		}
+	}
+	for _, f := range p.files {
+		if !res {
+			break
+		}
+		ast.Inspect(f, func(n ast.Node) bool {
+			switch s := n.(type) {
+			case *ast.AssignStmt:
+				for _, l := range s.Lhs {
+					if rootIs(l) {
+						res = false
+					}
+				}
+			case *ast.IncDecStmt:
+				if rootIs(s.X) {
+					res = false
+				}
+			case *ast.UnaryExpr:
+				if s.Op == token.AND && rootIs(s.X) {
+					res = false
+				}
+			case *ast.RangeStmt:
+				if (s.Key != nil && rootIs(s.Key)) || (s.Value != nil && rootIs(s.Value)) {
+					res = false
+				}
+			case *ast.CallExpr:
+				name := ""
+				switch fn := s.Fun.(type) {
+				case *ast.Ident:
+					name = fn.Name
+				case *ast.SelectorExpr:
+					if x, ok := fn.X.(*ast.Ident); ok {
+						name = x.Name + "." + fn.Sel.Name
+					}
+					if rootIs(fn.X) {
+						res = false // a method called on it
+					}
+				}
+				if len(s.Args) > 0 && rootIs(s.Args[0]) {
+					switch {
+					case name == "copy" || name == "append" || name == "clear" || strings.HasPrefix(name, "sort.") || strings.HasPrefix(name, "slices."):
+						res = false
+					}
+				}
+			}
+			return res
+		})
+	}
+	roTableCache[o] = res
+	return res
 }
